@@ -117,7 +117,7 @@ PROPS = {
             "text": "Lean theorems on the same parser model, for the chain of Parse calls the driver runs: the loop terminates on every input "
                     "(c08_no_hang_chain), no slice/index expression of the loop can panic (c08_no_panic), no callback meets a nil request/response "
                     "(c08_no_nil_deref_chain), retained bytes <= max(ReadLimit, largest read) along every chain (c08_retained_chain, ReadLimit > 0), "
-                    "body held <= MaxHTTPBodySize (c08_body_bound, c08_body_reader_bound), framing-field validation (c08_content_length(_any), "
+                    "body held <= MaxHTTPBodySize (c08_body_bound, c08_body_bound_events at event level, c08_body_reader_bound), framing-field validation (c08_content_length(_any), "
                     "c08_transfer_encoding, c08_trailer_names, c08_chunk_size, c08_chunk_line_grammar, c08_bare_lf_rejected), after the first error "
                     "nothing further (c08_parseE_silent; engine model of the four readers: c08_engine_*), BodyReader ownership (c08_body_free_once); "
                     "differential correspondence plus panic / bound / after-error / framing / line-ending oracles on arbitrary and mutated bytes, "
@@ -126,8 +126,9 @@ PROPS = {
                     "callbacks; every other panic source is total by construction in the model and observed only through the recover log line. "
                     "Non-blocking readers assume nbio delivers no data callback after CloseWithError (A1, property C03). With ReadLimit = 0 "
                     "nothing bounds the retained bytes (an oversized Content-Length body is cached whole before OnBody rejects it). The body "
-                    "bound is proved for the model's bodyHeld counter and the BodyReader model; its equality with the sum of OnBody bytes is "
-                    "sampled through held=. Framing theorems are about the validation functions on the recorded field values; that an accepted "
+                    "bound is proved for the model's bodyHeld counter, which is proved to be the sum of the body events since the last "
+                    "complete event along every chain (c08_body_held_is_event_sum, c08_body_bound_events: after every Parse call), and for the "
+                    "BodyReader model; that the real BodyReader.left equals the model's counter is sampled through held=. Framing theorems are about the validation functions on the recorded field values; that an accepted "
                     "stream matches the line grammar is checked by c08-framing-rejected / c08-line-endings, not proved. A bare LF inside a "
                     "request target or version token is rejected by the processor verdicts, which are inputs of the model",
             "technique": "Lean 4 proof (invariants by induction over the input) + differential correspondence"},
